@@ -638,12 +638,17 @@ def accepted_calls(seq):
                         yield npos, list(sub) + [ph], "phantom"
 
 
+MAXN = 2
+
+
 def signatures_for(row):
-    """Concrete kind sequences exhibiting exactly the kinds of this row: 1 or 2 parameters per countable kind."""
+    """Concrete kind sequences exhibiting exactly the kinds of this row: 1..MAXN parameters per countable kind
+    (2 on the quick tier, 3 on the thorough tier)."""
     po, pk, va, ko, vk = row
-    for npo in ([0] if not po else [1, 2]):
-        for npk in ([0] if not pk else [1, 2]):
-            for nko in ([0] if not ko else [1, 2]):
+    rng = list(range(1, MAXN + 1))
+    for npo in ([0] if not po else rng):
+        for npk in ([0] if not pk else rng):
+            for nko in ([0] if not ko else rng):
                 yield ["PO"] * npo + ["PK"] * npk + (["VA"] if va else []) + ["KO"] * nko + (["VK"] if vk else [])
 
 
@@ -825,6 +830,8 @@ def check_flow(prog: Program, rep: Report):
 
 
 def run(prog: Program, rep: Report, tier: str):
+    global MAXN
+    MAXN = 3 if tier == "thorough" else 2
     rep.rule("R10.1", "each binder's __call__ reduces to an effect summary (pos segments, keyword mode)", floor=16)
     rep.rule("R10.2", "_get_binding per-kind facts: own-annotation unmarshaller registered by index and name, own flag, varpos/varkwd, binding flow", floor=15)
     rep.rule("R10.3", "all 32 matrix rows route every accepted call shape to the parameter's own unmarshaller", floor=33)
